@@ -53,6 +53,18 @@ def install(eng):
         return False
     m(r'^core::slice::<impl \[.*\]>::contains$', m_slice_contains)
 
+    def m_split_first(eng, args, ctx):
+        s = as_slice(eng, args[0])
+        ln = eng.slice_len(s)
+        oty = norm_ty(ctx.dest_ty) if ctx.dest_ty else 'Option'
+        if not eng.fork_bool(z3.UGT(ln, 0)):
+            return opt(eng, oty)
+        first = Ref(eng.seq_cell(s.seq, s.start))
+        rest = SliceRef(s.seq, z3.simplify(s.start + 1), z3.simplify(ln - 1))
+        return opt(eng, oty, Struct('()', {0: Cell(first), 1: Cell(rest)}, None))
+    m(r'^core::slice::<impl \[.*\]>::split_first(_mut)?$', m_split_first)
+    m(r'^core::slice::<impl \[.*\]>::is_empty$', lambda e, a, c: as_bool(z3.simplify(e.slice_len(as_slice(e, a[0])) == 0)))
+
     def m_split_at(eng, args, ctx):
         s = as_slice(eng, args[0])
         mid = args[1]
@@ -71,6 +83,12 @@ def install(eng):
             raise PathEnd('panic', ('index out of bounds', what))
     def m_index(eng, args, ctx):
         """<Vec<T>/[T] as Index/IndexMut<I>>::index(_mut)"""
+        a0 = args[0]
+        while isinstance(a0, Ref):
+            a0 = a0.cell.get(eng)
+        hook = getattr(a0, 'index_with', None)
+        if hook is not None:
+            return hook(eng, args[1], ctx)
         s = as_slice(eng, args[0])
         i = args[1]
         ln = eng.slice_len(s)
